@@ -94,6 +94,9 @@ EXTRA = {
                           'proof': ['reveal_strlit("none"); reveal_strlit("auto"); reveal_strlit("break"); reveal_strlit("continue");']},
     'convert_math': {'ensures': [VERBATIM], 'serves': 'C07 C09'},
     'convert_ident': {'ensures': [LEAF_EXACT], 'serves': 'C10'},
+    'convert_strong': {'proof': ['reveal_strlit("*");']},
+    'convert_emph': {'proof': ['reveal_strlit("_");']},
+    'convert_ref': {'proof': ['reveal_strlit("@"); reveal_with_fuel(pieces, 4);'], 'ensures': ['[target_exact C10] pieces(r@).len() >= 2 && pieces(r@)[0] == txt("@"@) && pieces(r@)[1] == txt(ast::Ref({n}).target_s())'], 'serves': 'C10'},
     'convert_expr_flow': {'requires': ['{n}.kind_s() != SyntaxKind::Markup']},
     'convert_list_item_like': {'requires': ['matches!({n}.kind_s(), SyntaxKind::ListItem | SyntaxKind::EnumItem | SyntaxKind::TermItem)']},
     'convert_binary': {'closures': ['@closure 0 ret "(d: ArenaDoc<\'a>)"', '  ensures', '    - doc_closed(d@, self.unit_s())']},
